@@ -263,4 +263,12 @@ def c01_same_instant(x=0):
     return _compare(rs)
 
 
-CALLS = {"c01_refused_between": c01_refused_between, "c01_ignore_scope": c01_ignore_scope, "c01_value": c01_value, "c01_obs": c01_obs, "c01_keyword": c01_keyword, "c01_meta": c01_meta, "c01_sequence": c01_sequence, "c01_nested": c01_nested, "c01_grouped": c01_grouped, "c01_sweep": c01_sweep, "c01_alias": c01_alias, "c01_same_instant": c01_same_instant}
+
+def c01_meta_unset(x=0):
+    from flow.record import RecordDescriptor
+
+    r = RecordDescriptor("c01/meta", [("varint", "n")])(n=x)
+    r._generated = None
+    return _compare([r])
+
+CALLS = {"c01_meta_unset": c01_meta_unset, "c01_refused_between": c01_refused_between, "c01_ignore_scope": c01_ignore_scope, "c01_value": c01_value, "c01_obs": c01_obs, "c01_keyword": c01_keyword, "c01_meta": c01_meta, "c01_sequence": c01_sequence, "c01_nested": c01_nested, "c01_grouped": c01_grouped, "c01_sweep": c01_sweep, "c01_alias": c01_alias, "c01_same_instant": c01_same_instant}
